@@ -639,6 +639,8 @@ class Quaternion(np.ndarray):
             raise ValueError(f"Expected `q` to have shape (4,) or (3,), got {q.shape}.")
         if q.shape[-1] == 3:
             q = np.array([0.0, *q])
+        if not np.all(np.isfinite(q)):
+            raise ValueError("Quaternion cannot contain NaN or infinite values.")
         q_norm = np.linalg.norm(q)
         if q_norm == 0.0:
             raise ValueError("Quaternion cannot be a zero vector.")
